@@ -416,8 +416,9 @@ def replay_case(s, k):
 
 
 def describe(s, ev):
-    return "%s %s(%s) on a %s file: rows=%s cols=%s opt=%s returned %s" % (
-        s["hk"], ev["style"], key_of(ev["var"]), "binary" if s["delim"] is None else "text(%r)" % s["delim"],
+    key = "(%s=)" % key_of(ev["var"]) if ev["style"] in ("kw", "conv", "subset") and ev["cq"]["k"] != "all" else ""
+    return "%s %s%s on a %d-row %s file: rows=%s cols=%s opt=%s returned %s" % (
+        s["hk"], ev["style"], key, s["n"], "binary" if s["delim"] is None else "text(%r)" % s["delim"],
         {k: v for k, v in ev["rq"].items() if v not in (NONE, [], 0) or k == "k"}, ev["cq"]["cs"] or "all", ev["opt"], ev["o"])
 
 
@@ -455,8 +456,9 @@ def judge(ctx, sessions, what, failed=None):
             else:       # correct on a fresh handle, wrong after the earlier reads: history dependence
                 prev = s["events"][k - 1]
                 for cl in cls:
-                    ctx.violation("handle-sequence|%s|after %s %s" % (cl, prev["style"], prev["rq"]["k"]),
-                                  "read disturbed by earlier reads on the same handle: " + describe(s, ev), replay_case(s, k))
+                    ctx.violation("handle-sequence|%s|correct on a fresh handle" % cl,
+                                  "read disturbed by earlier reads on the same handle (previous: %s %s): %s" %
+                                  (prev["style"], prev["rq"]["k"], describe(s, ev)), replay_case(s, k))
     for s in sessions:
         for k, ev in enumerate(s["events"]):
             if not ev.get("frame_ok", True):
@@ -774,6 +776,8 @@ def run(ctx):
                     "request, style, argument container variant); every one selects from a non-empty table" %
                     (B["MaxN"], ",".join(str(x) for x in sorted(B["Steps"])), B["MaxListLen"], len(LAYOUTS), len(behs), B["MaxReads"],
                      nrand, maxn))
+        # the first case listed per signature should be a readable one: prefer 3-4 rows and short sessions
+        ctx.violations.sort(key=lambda v: (v[0], abs(v[2].get("n", 0) - 3), len(v[2].get("events", []))))
         ctx.exhaustive = True
         ctx.note(bounds={k: sorted(v) if isinstance(v, set) else v for k, v in B.items()}, row_cases=len(rowcases),
                  column_cases=len(colcases), behaviours=len(behs), handle_sessions=len(done), reads=nev,
